@@ -7,3 +7,5 @@ const pointsAvailable = false
 func setPointHook(f func(int)) {}
 
 var pointsInCopy = 0
+
+var sharedPoints []int
